@@ -16,7 +16,7 @@ def main():
     print(out[-3000:])
     if rc != 0:
         print("lake build failed during setup (checks will report the broken obligations)")
-    for variant in ("real",):
+    for variant in ("real", "complex"):
         try:
             pmlib.build_lib(variant)
         except RuntimeError as ex:
